@@ -170,3 +170,101 @@ def chain_semantics(tier, seed):
 
 native_check("C05", "chain-semantics", "bounded", chain_semantics,
              doc="AST pass and runtime decision executed together against reference short-circuit semantics")
+
+
+# ---- bounded stand-in on real processes: what decides a chain when the operand is ![..], !(..) or $(..) ------------------------------------
+_REAL_DRIVER = r'''
+import json, os, sys, warnings
+warnings.simplefilter("ignore")
+os.environ["XONSH_NO_RC"] = "1"
+from xonsh.main import setup
+setup(shell_type="none")
+from xonsh.built_ins import XSH
+XSH.env["XONSH_SUBPROC_RAISE_ERROR"] = False
+XSH.env["XONSH_SUBPROC_CMD_RAISE_ERROR"] = False
+XSH.env["XONSH_SHOW_TRACEBACK"] = False
+ran = []
+def mark(args, stdin=None):
+    ran.append(args[0]); return 0
+XSH.aliases["mark"] = mark
+out = []
+for cid, src in json.load(open(sys.argv[1])):
+    del ran[:]
+    err = None
+    try:
+        XSH.execer.exec(src + "\n", glbs={"__xonsh__": XSH}, locs=None)
+    except BaseException as e:
+        err = type(e).__name__
+    out.append([cid, list(ran), err])
+print("RESULT " + json.dumps(out))
+'''
+
+
+def real_operands(tier, seed):
+    import json
+    import os
+    import subprocess
+    import sys
+    import tempfile
+
+    repo = os.environ.get("XV_REPO", "/repo")
+    d = tempfile.mkdtemp(prefix="xv-c05r-", dir=os.environ.get("XV_SCRATCH"))
+    kp = os.path.join(os.path.dirname(os.path.dirname(os.path.abspath(__file__))), "KNOWN_FINDINGS.json")
+    known = [k for k in json.load(open(kp))["findings"] if k["property"] == "C05" and k.get("status") == "known" and k.get("native_class")]
+    cases, meta = [], {}
+    for form, tmpl in (("![]", "![sh -c '%s']"), ("!()", "!(sh -c '%s')"), ("$()", "$(sh -c '%s')"), ("bare", "sh -c '%s' e>/dev/null")):
+        for rc in (0, 3):
+            for writes in (False, True):
+                if form in ("![]", "bare") and writes:
+                    continue  # (their output would go to the terminal of the check)
+                prog = ("echo out; " if writes else "") + "exit %d" % rc
+                for op in ("&&", "||", "and", "or"):
+                    cid = len(cases)
+                    cases.append([cid, "%s %s mark second" % (tmpl % prog, op)])
+                    meta[cid] = dict(form=form, rc=rc, writes=writes, op=op)
+    failures, n, samples, known_hits = [], 0, [], {}
+    try:
+        json.dump(cases, open(os.path.join(d, "cases.json"), "w"))
+        open(os.path.join(d, "driver.py"), "w").write(_REAL_DRIVER)
+        p = subprocess.run([sys.executable, os.path.join(d, "driver.py"), os.path.join(d, "cases.json")], cwd=d, capture_output=True, text=True, timeout=900,
+                           env=dict(os.environ, PYTHONPATH=repo + os.pathsep + os.environ.get("PYTHONPATH", "")), stdin=subprocess.DEVNULL)
+        # (the terminal-title escape sequences xonsh prints come without a newline: the marker need not start a line)
+        pos = p.stdout.rfind("RESULT [")
+        if pos < 0:
+            return {"kind": "bounded", "evaluations": 0, "distinct_nontrivial": 0, "failures": [], "exhaustive": False, "error": "driver failed: " + (p.stderr or p.stdout)[-500:],
+                    "bound": "", "domain": "", "samples": []}
+        for cid, ran, err in json.loads(p.stdout[pos + 7:].splitlines()[0]):
+            n += 1
+            m = meta[cid]
+            want = (m["rc"] == 0) if m["op"] in ("&&", "and") else (m["rc"] != 0)
+            obs = None
+            if err:
+                obs = "raised %s" % err
+            elif (ran == ["second"]) != want:
+                obs = "the second command %s although the first exited with %d" % ("ran" if ran else "did not run", m["rc"])
+            if obs:
+                hit = None
+                for kf in known:
+                    try:
+                        if eval(kf["native_class"], dict(m, observed=obs)):
+                            hit = kf
+                            break
+                    except Exception:
+                        pass
+                if hit:
+                    known_hits[hit["id"]] = known_hits.get(hit["id"], 0) + 1
+                    obs = None
+            if obs and len(failures) < 5:
+                failures.append({"clause": "a command runs iff short-circuit evaluation over exit codes reaches it", "inputs": dict(m, source=cases[cid][1]), "observed": obs})
+            elif not obs and len(samples) < 3 and m["form"] == "!()":
+                samples.append(dict(m))
+    finally:
+        import shutil
+        shutil.rmtree(d, ignore_errors=True)
+    return {"kind": "bounded", "evaluations": n, "distinct_nontrivial": n, "failures": failures, "exhaustive": False,
+            "bound": "4 operand forms x exit 0 / 3 x output yes / no x 4 operators, second operand a recording alias", "domain": "real execer and real /bin/sh children",
+            "samples": samples, "known_lines": ["KNOWN-FINDING: property=C05 %s [%s] (%d cases)" % (kf["text"], kf["id"], known_hits[kf["id"]]) for kf in known if kf["id"] in known_hits],
+            "known_hits": known_hits}
+
+
+native_check("C05", "real-operands-decide-by-exit-code", "bounded", real_operands, doc="![..] / !(..) / $(..) / bare operands of a two-command chain on real processes")
